@@ -26,8 +26,29 @@ TOKEN_CLASSES = [
 # classes whose text can reach the output with its length (span clause)
 TEXTY = [D + 'TextToken', D + 'SpaceToken', D + 'ParagraphToken',
          D + 'ArgumentToken']
+# classes whose text is never empty (control sequences, specials)
+NONEMPTY = [D + 'CommentToken',
+            D + 'SpecialToken', D + 'MacroToken', D + 'BeginToken',
+            D + 'EndToken', D + 'ItemToken', D + 'AccentToken']
+# classes whose text is always empty
+EMPTYCLS = [D + 'ActionToken', D + 'VoidToken', D + 'LanguageToken']
+# markup classes: never emitted by expand_sequence (closure lemma, C03)
+MARKUP = [D + 'CommentToken', D + 'MacroToken', D + 'SpecialToken',
+          D + 'BeginToken', D + 'EndToken', D + 'ItemToken',
+          D + 'AccentToken', D + 'VerbatimToken', D + 'MathBeginToken']
+MATHX = [D + 'MathElemToken', D + 'MathOperToken', D + 'MathSpaceToken',
+         M + 'MathPartToken']
 # classes that may be emitted by expand_sequence (closure lemma, C03)
 OUTPUT = TEXTY + [D + 'LanguageToken']
+
+
+# membership in Parameters.accent_macros (one table per run; uninterpreted)
+ACCENTS = StrSet('accent_macros')
+
+
+def is_accent(txt):
+    t = lift_str(txt)
+    return ACCENTS.fn(t.arr, zint(t.ln))
 
 
 def check_token_classes(repo):
@@ -91,6 +112,11 @@ def in_text(t, N):
     return And(p >= 0, Or(p < zint(N), And(L == 0, p <= zint(N))))
 
 
+def in_text_strict(t, N):
+    p = zint(t.fields['pos'])
+    return And(p >= 0, p < zint(N))
+
+
 def span(t, N):
     p = zint(t.fields['pos'])
     L = zint(tlen(t))
@@ -136,7 +162,11 @@ def ok(ex, t, src, with_exact=True):
     if isinstance(t.cls, str):
         # concrete class: only the relevant clauses (other fields may not
         # exist on the object)
-        parts = [in_text(t, N)]
+        parts = [in_text_strict(t, N)]
+        if t.cls in NONEMPTY:
+            parts.append(zint(tlen(t)) >= 1)
+        if t.cls in EMPTYCLS:
+            parts.append(zint(tlen(t)) == 0)
         if t.cls in TEXTY:
             parts.append(span(t, N))
         if t.cls == D + 'SpecialToken':
@@ -146,10 +176,14 @@ def ok(ex, t, src, with_exact=True):
             p = zint(t.fields['pos'])
             L = zint(tlen(t))
             parts.append(Or(fx, p + L <= zint(N)))
-            parts.append(Implies(And(zbool(t.fields['environ']), Not(fx)),
+            parts.append(Implies(And(zbool(tfield(t, 'environ', False)), Not(fx)),
                                  p + L < zint(N)))
         if t.cls == D + 'ArgumentToken':
-            parts.append(zint(t.fields['arg']) >= 0)
+            parts.append(zint(tfield(t, 'arg', 0)) >= 0)
+        if t.cls == D + 'CommentToken':
+            parts.append(lift_str(t.fields['txt']).at(0) == ord('%'))
+        if t.cls == D + 'AccentToken':
+            parts.append(is_accent(t.fields['txt']))
         if with_exact and t.cls in TEXTY + [D + 'VerbatimToken']:
             parts.append(exact(t, src))
         return And(*parts)
@@ -159,17 +193,74 @@ def ok(ex, t, src, with_exact=True):
     p = zint(t.fields['pos'])
     L = zint(tlen(t))
     fx = zbool(t.fields['pos_fix'])
-    parts = [in_text(t, N),
+    parts = [in_text_strict(t, N),
+             Implies(cls_is(ex, t, *NONEMPTY), L >= 1),
+             Implies(cls_is(ex, t, *EMPTYCLS), L == 0),
              Implies(texty, span(t, N)),
              Implies(special, special_ok(ex, t, N)),
              Implies(verb, Or(fx, p + L <= zint(N))),
-             Implies(And(verb, zbool(t.fields['environ']), Not(fx)),
+             Implies(And(verb, zbool(tfield(t, 'environ', False)), Not(fx)),
                      p + L < zint(N)),
              Implies(cls_is(ex, t, D + 'ArgumentToken'),
-                     zint(t.fields['arg']) >= 0)]
+                     zint(tfield(t, 'arg', 0)) >= 0),
+             Implies(cls_is(ex, t, D + 'CommentToken'),
+                     lift_str(t.fields['txt']).at(0) == ord('%')),
+             Implies(cls_is(ex, t, D + 'AccentToken'),
+                     is_accent(t.fields['txt']))]
     if with_exact:
         parts.append(Implies(Or(texty, verb), exact(t, src)))
     return And(*parts)
+
+
+def pre_out(ex, t, src):
+    """token collected for the text output: Ok, neither markup nor one of
+    the maths classes, characters are where they claim to be"""
+    return And(ok(ex, t, src), Not(cls_is(ex, t, *MARKUP)),
+               Not(cls_is(ex, t, *MATHX)), span(t, src.ln), exact(t, src))
+
+
+def work_tok(ex, t, src):
+    """working tokens of remove_pure_action_lines: like pre_out, but an
+    empty token may sit at pos == N (sentinels, fully consumed tokens)"""
+    N = src.ln
+    strict = Or(zint(tlen(t)) >= 1,
+                cls_is(ex, t, D + 'LanguageToken', D + 'ActionToken'))
+    return And(in_text(t, N), Implies(strict, in_text_strict(t, N)),
+               Implies(cls_is(ex, t, *EMPTYCLS), zint(tlen(t)) == 0),
+               Not(cls_is(ex, t, *MARKUP)), Not(cls_is(ex, t, *MATHX)),
+               span(t, N), exact(t, src),
+               Implies(cls_is(ex, t, D + 'ArgumentToken'),
+                       zint(tfield(t, 'arg', 0)) >= 0))
+
+
+def out_final(ex, t, src):
+    """token returned by expand_sequence"""
+    return And(pre_out(ex, t, src),
+               Not(cls_is(ex, t, D + 'ActionToken', D + 'VoidToken')),
+               Or(zint(tlen(t)) >= 1, cls_is(ex, t, D + 'LanguageToken')))
+
+
+def WorkList(src, lenpred=None):
+    return ListS(TokS(lambda ex, t: work_tok(ex, t, src), name='wt'),
+                 lenpred, 'work')
+
+
+def PreOutList(src, lenpred=None):
+    return ListS(TokS(lambda ex, t: pre_out(ex, t, src), name='po'),
+                 lenpred, 'preout')
+
+
+def FinalList(src, lenpred=None):
+    return ListS(TokS(lambda ex, t: out_final(ex, t, src), name='fo'),
+                 lenpred, 'final')
+
+
+def OutputList(src, lenpred=None):
+    """call-side view of an expand_sequence result: additionally no maths
+    class (assumed, see contracts.c_parser)"""
+    return ListS(TokS(lambda ex, t: And(out_final(ex, t, src),
+                                        cls_is(ex, t, *OUTPUT)),
+                      name='ot'), lenpred, 'output')
 
 
 def out_ok(ex, t, src):
@@ -194,11 +285,21 @@ def fresh_token(ex, st, name='t', classes=None):
     o.fields['hard'] = fresh_bool(name + '_hard')
     o.fields['brk'] = fresh_bool(name + '_brk')
     o.meta['token'] = True
+    o.meta['lazy'] = _scratch_lazy
     return o
+
+
+def _scratch_lazy(ex, st, o, attr):
+    # scratch attributes of remove_pure_action_lines (set by its eval())
+    if attr in ('is_blank', 'can_start', 'can_end'):
+        return fresh_bool(attr)
+    return NotImplemented
 
 
 class TokS(Spec):
     """token satisfying pred(ex, t) -> formula"""
+    unwrap_opt = True
+
     def __init__(self, pred, classes=None, name='t'):
         self.pred = pred
         self.classes = classes
